@@ -68,4 +68,13 @@ CHECKS = {
              "thorough": {"checks": 5000, "shards": 4, "timeout": "60m"}},
         ],
     },
+    "C04": {
+        "level": "exploration",
+        "assumptions": EXPLORATION_ASSUMPTIONS + ["background dispatch is pinned with permanently registered sentinel handlers as the property's quantifier describes; an in-handler script that touches the other handler set first waits for that set's sentinel",
+                                                  "quiescence of an event = no goroutine with a frame in hSet.dispatch / hNode.Handle"],
+        "legs": [
+            {"test": "TestC04", "quick": {"checks": 300, "timeout": "15m"},
+             "thorough": {"checks": 4000, "shards": 4, "timeout": "60m"}},
+        ],
+    },
 }
